@@ -19,7 +19,8 @@ type EvalCtx struct {
 	pkg    string      // package path for resolving unqualified type names
 	inOld  bool
 	bound  map[string]Val // variables bound by quantifiers and predicate parameters
-	iterCell string // visited-set cell of the map iteration of the loop being checked
+	iterCell string
+	loopIter string // value of `loopiter` for the loop being evaluated // visited-set cell of the map iteration of the loop being checked
 	preferFrame bool // loop invariants: source-level current values shadow entry values
 	events []Event
 }
@@ -206,6 +207,12 @@ func (c *EvalCtx) eval(e Expr) Val {
 			return Val{K: KScalar, T: types.Typ[types.UntypedNil], S: "0", Sort: "Int"}
 		case "zerotime":
 			return intVal(zeroTimeNs)
+		case "loopiter":
+			// number of completed iterations of the loop whose invariant / measure is being evaluated
+			if c.loopIter == "" {
+				c.fail("loopiter is only meaningful in loop invariants and decreases clauses")
+			}
+			return intVal(c.loopIter)
 		case "lastclock":
 			if sn := c.snap(); sn != nil {
 				return intVal(sn.clock)
